@@ -717,9 +717,10 @@ def resolve_pointer_rfc6901(tier, seed):
     viol = []
     known = []
     MISS = object()
-    for k in range(0, L + 1):
-        for tup in itertools.product(alphabet, repeat=k):
-            p = "".join(tup)
+    # (array-index spellings that int() accepts but RFC 6901 does not: longer than the enumerated length in the quick tier, so listed explicitly)
+    extras = ["/a/-1", "/a/-0", "/a/01", "/a/00", "/a/+1", "/a/ 1", "/a/1 ", "/a/1_0", "/a/\uff11", "/a/2/b", "/a/02/b", "/a/10"]
+    for p in itertools.chain(("".join(tup) for k in range(0, L + 1) for tup in itertools.product(alphabet, repeat=k)), extras):
+        if True:
             n += 1
             got = resolve_pointer(doc, p)
             want = _rfc6901(doc, p)
